@@ -129,6 +129,116 @@ Qed.
 Lemma round_mag_nonneg : forall n d, 0 <= n -> 0 < d -> 0 <= round_mag n d.
 Proof. intros n d Hn Hd. destruct (round_mag_representable n d Hn Hd) as [H _]. exact H. Qed.
 
+(* ---------------------------------------------------------------- round_mag is a correct rounding *)
+
+(* which neighbour is taken: with a = n * 2^1074 = (d * 2^s) * q + r, the lower neighbour q * 2^s
+   when r is at most half of d * 2^s, the upper one when it is at least half *)
+Lemma round_mag_dist : forall n d, 0 <= n -> 0 < d ->
+  let a := n * F_UNIT in
+  let y := a / d in
+  let P := 2 ^ f_shift y in
+  let q := y / P in
+  let b := d * P in
+  let r := a - b * q in
+  0 <= r < b /\
+  ((round_mag n d = q * P /\ 2 * r <= b) \/ (round_mag n d = (q + 1) * P /\ b <= 2 * r)).
+Proof.
+  intros n d Hn Hd a y P q b r. pose proof F_UNIT_pos as HU.
+  assert (Ha : 0 <= a) by (unfold a; nia).
+  assert (Hy : 0 <= y) by (apply Z.div_pos; lia).
+  pose proof (f_shift_nonneg y) as Hs. assert (HP : 0 < P) by (apply pow2_pos; exact Hs).
+  pose proof (Z.div_mod a d ltac:(lia)) as Hdm. fold y in Hdm.
+  pose proof (Z.mod_pos_bound a d Hd) as Hr0.
+  pose proof (Z.div_mod y P ltac:(lia)) as Hdm2. fold q in Hdm2.
+  pose proof (Z.mod_pos_bound y P HP) as Hl.
+  assert (Hr : r = (y - q * P) * d + a mod d) by (unfold r, b; nia).
+  assert (Hrange : 0 <= r < b) by (unfold b; nia).
+  split; [exact Hrange|].
+  unfold round_mag. fold a.
+  destruct (Z.div_eucl a d) as [y' r0] eqn:E. apply div_eucl_div_mod in E. destruct E as [Ey Er].
+  fold y in Ey. subst y' r0.
+  rewrite Z.shiftr_div_pow2 by exact Hs. rewrite !Z.shiftl_mul_pow2 by exact Hs.
+  fold P. fold q. rewrite <- Hr. fold b.
+  destruct (2 * r <? b) eqn:E1; [left; split; [reflexivity|apply Z.ltb_lt in E1; lia]|].
+  apply Z.ltb_ge in E1.
+  destruct (b <? 2 * r) eqn:E2; [right; split; [reflexivity|exact E1]|].
+  apply Z.ltb_ge in E2.
+  destruct (Z.even q); [left|right]; (split; [reflexivity|lia]).
+Qed.
+
+(* there is no representable magnitude strictly inside the gap the two neighbours span *)
+Lemma no_representable_in_gap : forall y k, 0 <= y -> representable k ->
+  let P := 2 ^ f_shift y in
+  let q := y / P in
+  k <= q * P \/ (q + 1) * P <= k.
+Proof.
+  intros y k Hy [Hk Hm] P q.
+  pose proof (f_shift_nonneg y) as Hs. assert (HP : 0 < P) by (apply pow2_pos; exact Hs).
+  destruct (Z_le_gt_dec k (q * P)) as [Hle|Hgt]; [left; exact Hle|right].
+  (* k > q * P: k is a multiple of P *)
+  assert (Hmul : k mod P = 0).
+  { destruct (Z.eq_dec (f_shift y) 0) as [H0|H0].
+    - unfold P. rewrite H0. apply Z.mod_1_r.
+    - (* s > 0: q * P >= 2^(s+52), so the quantum at k is at least P *)
+      assert (Hy0 : 0 < y).
+      { destruct (Z.eq_dec y 0) as [E|]; [|lia]. exfalso. apply H0. rewrite E. reflexivity. }
+      assert (Hsy : f_shift y = Z.log2 y - 52) by (unfold f_shift in *; lia).
+      pose proof (Z.log2_spec y Hy0) as [Hlo _].
+      assert (Hq : 2 ^ 52 <= q).
+      { unfold q. apply Z.div_le_lower_bound; [exact HP|].
+        unfold P. rewrite Z.mul_comm, <- Z.pow_add_r by lia.
+        replace (52 + f_shift y) with (Z.log2 y) by lia. exact Hlo. }
+      assert (Hk52 : 2 ^ (f_shift y + 52) <= k).
+      { rewrite Z.pow_add_r by lia. fold P. nia. }
+      assert (Hk0 : 0 < k) by (assert (0 < 2 ^ (f_shift y + 52)) by (apply Z.pow_pos_nonneg; lia); lia).
+      assert (Hlk : f_shift y + 52 <= Z.log2 k) by (apply Z.log2_le_pow2; assumption).
+      assert (Hsk : f_shift k = f_shift y + (Z.log2 k - 52 - f_shift y)) by (unfold f_shift at 1; lia).
+      rewrite Hsk, Z.pow_add_r in Hm by lia. fold P in Hm.
+      set (t := 2 ^ (Z.log2 k - 52 - f_shift y)) in *.
+      assert (Ht : 0 < t) by (apply Z.pow_pos_nonneg; lia).
+      pose proof (Z.div_mod k (P * t) ltac:(nia)) as Hd. rewrite Hm in Hd.
+      replace k with ((t * (k / (P * t))) * P) by lia. apply Z.mod_mul. lia. }
+  pose proof (Z.div_mod k P ltac:(lia)) as Hd. rewrite Hmul in Hd.
+  assert (q < k / P) by nia. nia.
+Qed.
+
+(* round to nearest: no representable magnitude is closer to n / d (distances in units of
+   1 / (d * 2^1074)); the overflow to inf is decided afterwards, by f_mk, on this result *)
+Theorem round_mag_nearest : forall n d k, 0 <= n -> 0 < d -> representable k ->
+  Z.abs (round_mag n d * d - n * F_UNIT) <= Z.abs (k * d - n * F_UNIT).
+Proof.
+  intros n d k Hn Hd Hk. pose proof F_UNIT_pos as HU.
+  destruct (round_mag_dist n d Hn Hd) as [Hr Hc].
+  assert (Hy : 0 <= n * F_UNIT / d) by (apply Z.div_pos; nia).
+  pose proof (no_representable_in_gap _ k Hy Hk) as Hgap. cbv zeta in Hgap, Hr, Hc.
+  set (a := n * F_UNIT) in *. set (y := a / d) in *. set (P := 2 ^ f_shift y) in *.
+  set (q := y / P) in *. set (b := d * P) in *.
+  assert (HP : 0 < P) by (apply pow2_pos; apply f_shift_nonneg).
+  destruct Hc as [[-> H2]|[-> H2]]; destruct Hgap as [Hg|Hg]; unfold b in *; nia.
+Qed.
+
+(* ... and a tie is broken towards the even multiple of the quantum *)
+Theorem round_mag_tie_even : forall n d, 0 <= n -> 0 < d ->
+  let P := 2 ^ f_shift (n * F_UNIT / d) in
+  let q := n * F_UNIT / d / P in
+  2 * (n * F_UNIT - d * P * q) = d * P ->
+  round_mag n d = (if Z.even q then q else q + 1) * P.
+Proof.
+  intros n d Hn Hd P q Htie. pose proof F_UNIT_pos as HU.
+  unfold round_mag.
+  destruct (Z.div_eucl (n * F_UNIT) d) as [y' r0] eqn:E. apply div_eucl_div_mod in E. destruct E as [Ey Er].
+  subst y' r0. set (y := n * F_UNIT / d) in *.
+  pose proof (f_shift_nonneg y) as Hs.
+  rewrite Z.shiftr_div_pow2 by exact Hs. rewrite !Z.shiftl_mul_pow2 by exact Hs.
+  fold P. fold q.
+  pose proof (Z.div_mod (n * F_UNIT) d ltac:(lia)) as Hdm. fold y in Hdm.
+  assert (Hr : (y - q * P) * d + (n * F_UNIT) mod d = n * F_UNIT - d * P * q) by nia.
+  rewrite Hr.
+  replace (2 * (n * F_UNIT - d * P * q) <? d * P) with false by (symmetry; apply Z.ltb_ge; lia).
+  replace (d * P <? 2 * (n * F_UNIT - d * P * q)) with false by (symmetry; apply Z.ltb_ge; lia).
+  destruct (Z.even q); reflexivity.
+Qed.
+
 (* ---------------------------------------------------------------- validity of results *)
 
 Lemma f_mk_valid : forall neg k, representable k -> valid_f64 (f_mk neg k).
